@@ -201,14 +201,18 @@ Section Sonic.
       end
     | _, _ => Ok (a, chal, draws)
     end.
-  Definition s_batch_check (vk : SVKey) (cs : list (N * (F * option nat))) (qs : list query) (ev : evals)
+  (* evm: the evaluations as the BTreeMap the function is handed *)
+  Definition s_batch_check_m (vk : SVKey) (cs : list (N * (F * option nat))) (qs : list query) (evm : evals)
              (pfs : list Proof) (chal vtape : list F) : res (bool * list F * nat) :=
     let groups := group_queries qs in
     if negb (Nat.eqb (length pfs) (length groups)) then Panic else
-    do r <- s_batch_groups vk (s_comm_map cs) (evals_map ev) groups pfs chal f1 vtape
+    do r <- s_batch_groups vk (s_comm_map cs) evm groups pfs chal f1 vtape
                            {| sb_lhs := Ok f0; sb_adj := f0; sb_wit := f0 |} O;
     let '(a, rest, draws) := r in
     do lhs <- sb_lhs a;
     let k := svk_vk vk in
     Ok (feqb (fsub (fsub lhs (fmul (sb_adj a) (vk_h k))) (fmul (sb_wit a) (vk_beta_h k))) f0, rest, draws).
+  Definition s_batch_check (vk : SVKey) (cs : list (N * (F * option nat))) (qs : list query) (ev : evals)
+             (pfs : list Proof) (chal vtape : list F) : res (bool * list F * nat) :=
+    s_batch_check_m vk cs qs (evals_map ev) pfs chal vtape.
 End Sonic.
